@@ -174,18 +174,14 @@ theorem visible_of_tail_none (s : Sys) (h : s.tail = none) : visible s = [] := b
 
 /-! ### grants -/
 
-/-- a schedule of scheduler grants (the CAS of `clear_with` shares the grant of its tail load) is the schedule
-    `fineSched` of single steps -/
-theorem foldl_grant_eq_run (sched : List Nat) : ∀ s : Sys, sched.foldl grant s = run s (fineSched s sched) := by
+/-- a schedule of scheduler grants is that very schedule of single steps (one grant = one step: the CAS of
+    `clear_with` has its own yield point `bkt.clear.cas`) -/
+theorem foldl_grant_eq_run (sched : List Nat) : ∀ s : Sys, sched.foldl grant s = run s sched := by
   induction sched with
   | nil => intro s; rfl
   | cons tid r ih =>
     intro s
-    simp only [List.foldl_cons, fineSched, grant]
-    split
-    · split
-      · simp only [run, List.foldl_cons]; exact ih _
-      · simp only [run, List.foldl_cons]; exact ih _
-    · simp only [run, List.foldl_cons]; exact ih _
+    simp only [List.foldl_cons, run, grant]
+    exact ih _
 
 end MetricsVerif.PromConc
